@@ -426,57 +426,129 @@ func scribble(b []byte) {
 
 // hist K HEX,HEX,...  : decode each into ONE destination variable, scribbling over the input
 // buffer and over a fresh encoding of the value after each step.
+// dirt applied to a destination between decodes ("dirty" mode): the typed header maps are edited
+// without touching the retained raw bytes, payload and signature bytes are overwritten.  A decoder
+// whose result depends only on its input cannot see any of it.
+func dirtyHeaders(h *cose.Headers) {
+	if h.Protected != nil {
+		delete(h.Protected, cose.HeaderLabelAlgorithm)
+		delete(h.Protected, cose.HeaderLabelKeyID)
+		h.Protected[int64(99999)] = "dirt"
+	}
+	if h.Unprotected != nil {
+		delete(h.Unprotected, cose.HeaderLabelKeyID)
+		h.Unprotected[cose.HeaderLabelContentType] = "dirt/dirt"
+	}
+}
+
 func opHist(a []string) string {
 	kind := a[0]
 	steps := strings.Split(a[1], ",")
-	var s1 cose.Sign1Message
-	var sm cose.SignMessage
-	var sg cose.Signature
-	var ph cose.ProtectedHeader
-	var uh cose.UnprotectedHeader
+	dirty := len(a) > 2 && a[2] == "dirty"
+	// v[0] is the variable under test; v[1] is a twin that receives the same decodes and is never
+	// dirtied (used only to print the state a failed decode must leave behind, see below)
+	type dst struct {
+		s1 cose.Sign1Message
+		sm cose.SignMessage
+		sg cose.Signature
+		ph cose.ProtectedHeader
+		uh cose.UnprotectedHeader
+	}
+	var v [2]dst
 	outs := []string{}
-	for _, st := range steps {
-		buf := unhex(st)
-		var err error
-		var dump func() string
-		var enc func() ([]byte, error)
-		switch kind {
-		case "s1":
-			err = s1.UnmarshalCBOR(buf)
-			dump = func() string { return dumpSign1(&s1) }
-			enc = s1.MarshalCBOR
-		case "s1u":
-			err = (*cose.UntaggedSign1Message)(&s1).UnmarshalCBOR(buf)
-			dump = func() string { return dumpSign1(&s1) }
-			enc = (*cose.UntaggedSign1Message)(&s1).MarshalCBOR
-		case "sm":
-			err = sm.UnmarshalCBOR(buf)
-			dump = func() string { return dumpSignMsg(&sm) }
-			enc = sm.MarshalCBOR
-		case "sig":
-			err = sg.UnmarshalCBOR(buf)
-			dump = func() string { return dumpSignature(&sg) }
-			enc = sg.MarshalCBOR
-		case "csig":
-			err = (*cose.Countersignature)(&sg).UnmarshalCBOR(buf)
-			dump = func() string { return dumpSignature(&sg) }
-			enc = (*cose.Countersignature)(&sg).MarshalCBOR
-		case "ph":
-			err = ph.UnmarshalCBOR(buf)
-			dump = func() string { return dumpOptMap(ph) }
-			enc = ph.MarshalCBOR
-		case "uh":
-			err = uh.UnmarshalCBOR(buf)
-			dump = func() string { return dumpOptMap(uh) }
-			enc = uh.MarshalCBOR
+	for si, st := range steps {
+		var errs [2]error
+		var dumps [2]func() string
+		var pre string
+		for w := 0; w < 2; w++ {
+			if w == 1 && !dirty {
+				break
+			}
+			d := &v[w]
+			buf := unhex(st)
+			var err error
+			var dump func() string
+			var enc func() ([]byte, error)
+			switch kind {
+			case "s1", "s1u":
+				dump = func() string { return dumpSign1(&d.s1) }
+			case "sm":
+				dump = func() string { return dumpSignMsg(&d.sm) }
+			case "sig", "csig":
+				dump = func() string { return dumpSignature(&d.sg) }
+			case "ph":
+				dump = func() string { return dumpOptMap(d.ph) }
+			case "uh":
+				dump = func() string { return dumpOptMap(d.uh) }
+			default:
+				return "harness-error hist kind"
+			}
+			if w == 0 && dirty && si > 0 {
+				dirtyHeaders(&d.s1.Headers)
+				scribble(d.s1.Payload)
+				scribble(d.s1.Signature)
+				dirtyHeaders(&d.sm.Headers)
+				scribble(d.sm.Payload)
+				for _, sg := range d.sm.Signatures {
+					if sg != nil {
+						dirtyHeaders(&sg.Headers)
+						scribble(sg.Signature)
+					}
+				}
+				dirtyHeaders(&d.sg.Headers)
+				scribble(d.sg.Signature)
+				if d.ph != nil {
+					d.ph[int64(99999)] = "dirt"
+				}
+				if d.uh != nil {
+					d.uh[int64(99999)] = "dirt"
+				}
+				pre = dump()
+			}
+			switch kind {
+			case "s1":
+				err = d.s1.UnmarshalCBOR(buf)
+				enc = d.s1.MarshalCBOR
+			case "s1u":
+				err = (*cose.UntaggedSign1Message)(&d.s1).UnmarshalCBOR(buf)
+				enc = (*cose.UntaggedSign1Message)(&d.s1).MarshalCBOR
+			case "sm":
+				err = d.sm.UnmarshalCBOR(buf)
+				enc = d.sm.MarshalCBOR
+			case "sig":
+				err = d.sg.UnmarshalCBOR(buf)
+				enc = d.sg.MarshalCBOR
+			case "csig":
+				err = (*cose.Countersignature)(&d.sg).UnmarshalCBOR(buf)
+				enc = (*cose.Countersignature)(&d.sg).MarshalCBOR
+			case "ph":
+				err = d.ph.UnmarshalCBOR(buf)
+				enc = d.ph.MarshalCBOR
+			case "uh":
+				err = d.uh.UnmarshalCBOR(buf)
+				enc = d.uh.MarshalCBOR
+			}
+			scribble(buf)
+			if w == 0 && !dirty {
+				if out, e := enc(); e == nil {
+					scribble(out)
+				}
+			}
+			errs[w], dumps[w] = err, dump
+		}
+		switch {
+		case !dirty || si == 0:
+			outs = append(outs, plainErr(errs[0])+":"+dumps[0]())
+		case errs[0] == nil:
+			// success: the dirtied variable must now equal what a clean one holds
+			outs = append(outs, "ok:"+dumps[0]())
+		case dumps[0]() != pre:
+			outs = append(outs, "err:CHANGED-ON-FAILURE")
 		default:
-			return "harness-error hist kind"
+			// failure left the (dirtied) destination as it was; print the twin's state, which is
+			// what the model — knowing nothing of the dirt — expects
+			outs = append(outs, plainErr(errs[1])+":"+dumps[1]())
 		}
-		scribble(buf)
-		if out, e := enc(); e == nil {
-			scribble(out)
-		}
-		outs = append(outs, plainErr(err)+":"+dump())
 	}
 	return strings.Join(outs, " ")
 }
